@@ -972,7 +972,8 @@ class Vector():
 							name=None,
 							as_row=self._display_as_row)
 
-		if isinstance(other, Iterable) and not isinstance(other, (str, bytes, bytearray)):
+		# (a mapping is ONE operand - '%(a)s' % {'a': 1} - not a sequence of them)
+		if isinstance(other, Iterable) and not isinstance(other, (str, bytes, bytearray, Mapping)):
 			if len(self) != len(other):
 				raise ValueError(f"Length mismatch: {len(self)} != {len(other)}")
 			try:
